@@ -259,22 +259,40 @@ def build(case, fe=None):
     return b
 
 
+GRB_PARAMS = {'TimeLimit': 5, 'NonConvex': 1}     # never hand a malformed (non-convex) model to spatial B&B
+
+
+def _params(iface):
+    return GRB_PARAMS if iface == 'grb' else {}
+
+
 def _solver(iface):
     return _rs['eco'] if iface == 'eco' else _rs['grb']
 
 
-def _opt(m, iface):
-    """(ok, value) of the model's last solve; ok only for a clean optimal status."""
+def _verdict(m, iface):
+    """'optimal' | 'infeasible' | 'unbounded' | 'other' for the model's last solve."""
     sol = m.solution
-    if sol is None or sol.x is None:
-        return False, float('nan')
+    if sol is None:
+        return 'other'
     st = str(sol.status)
     if iface == 'eco':
-        if not st.startswith('Optimal'):
-            return False, float('nan')
-    else:
-        if st != '2':
-            return False, float('nan')
+        if sol.x is not None and st.startswith('Optimal'):
+            return 'optimal'
+        if st.startswith('Primal infeasible'):
+            return 'infeasible'
+        if st.startswith('Dual infeasible'):
+            return 'unbounded'
+        return 'other'
+    if st == '2' and sol.x is not None:
+        return 'optimal'
+    return {'3': 'infeasible', '5': 'unbounded'}.get(st, 'other')
+
+
+def _opt(m, iface):
+    """(ok, value) of the model's last solve; ok only for a clean optimal status."""
+    if _verdict(m, iface) != 'optimal':
+        return False, float('nan')
     try:
         return True, float(m.get())
     except Exception:  # noqa
@@ -318,6 +336,7 @@ def run_acc(case):
         return {'status': 'vacuous', 'ops': ops, 'outcome': 'references disagree (exact vs closed form)',
                 'detail': 'exact %.9g closed form %.9g' % (v_x, v_cf)}
     worst = 0.0
+    bad = []
     ratio = 0.0
     differs = True
     solved = 0
@@ -325,7 +344,7 @@ def run_acc(case):
         bb = build(case)
         ops += bb.ops + 1
         try:
-            bb.m.soc_solve(_solver(iface), degree=d, display=False)
+            bb.m.soc_solve(_solver(iface), degree=d, display=False, params=_params(iface))
         except Exception as ex:  # noqa
             if 'size-limited license' in str(ex):
                 continue        # environment: Gurobi restricted licence, not the code under test
@@ -333,6 +352,11 @@ def run_acc(case):
                     'detail': 'degree %d e=%s z=%s: %s' % (d, e, z, str(ex)[:160])}
         ok, v = _opt(bb.m, iface)
         if not ok:
+            vd = _verdict(bb.m, iface)
+            if vd in ('infeasible', 'unbounded') and (exact_agree or has_int):
+                # the exact program has a finite optimum (closed form, confirmed by ECOS where possible) but its
+                # SOC approximation is reported infeasible / unbounded: not "within a small relative error"
+                bad.append((d, vd))
             continue
         solved += 1
         tol = 1e-3 * abs(v_cf) + 2e-4
@@ -348,13 +372,20 @@ def run_acc(case):
         ratio = max(ratio, err / tol)
         if err <= 1e-9 * (1 + abs(v_cf)):
             differs = False
+    if bad and (solved == 0 or len(bad) >= 2):
+        # one isolated status of this kind next to accurate answers at the other degrees is treated as solver
+        # noise (vacuous for that degree); a consistent verdict is a violation
+        return {'status': 'violation', 'ops': ops, 'sig': '%s|approximation %s' % (tag, bad[0][1]),
+                'detail': 'e=%s z=%s: soc_solve reported %s at degrees %s, exact optimum %.9g' % (
+                    e, z, bad[0][1], [d for d, _ in bad], v_cf)}
     if solved == 0:
         return {'status': 'vacuous', 'ops': ops, 'outcome': 'no soc_solve reported optimal (%s)' % iface}
     mag = 'err<1e-5' if worst < 1e-5 else 'err<1e-4' if worst < 1e-4 else 'err<1e-3'
-    return {'status': 'pass', 'ops': ops, 'nontrivial': bool((exact_agree or has_int) and differs and solved >= len(case['degs']) - 1),
-            'outcome': 'acc ok %s %s err/tol%s solved=%d/%d exact=%s' % (
+    return {'status': 'pass', 'ops': ops,
+            'nontrivial': bool((exact_agree or has_int) and differs and solved >= len(case['degs']) - 1),
+            'outcome': 'acc ok %s %s err/tol%s solved=%d/%d%s exact=%s' % (
                 iface, mag, '<.1' if ratio < .1 else '<.3' if ratio < .3 else '<.6' if ratio < .6 else '<1', solved,
-                len(case['degs']), 'agree' if exact_agree else 'n/a'),
+                len(case['degs']), ('(1 %s)' % bad[0][1]) if bad else '', 'agree' if exact_agree else 'n/a'),
             'validated': solved}
 
 
@@ -439,7 +470,7 @@ def run_hist(case):
         ops += 1
         try:
             if step == 'soc':
-                b.m.soc_solve(_solver(iface), degree=4, display=False)
+                b.m.soc_solve(_solver(iface), degree=4, display=False, params=_params(iface))
                 ok, v = _opt(b.m, iface)
                 tol = 1e-3 * abs(v_cf) + 2e-4
             elif step == 'solve':
